@@ -59,6 +59,36 @@ def permute_variables(m, rnd):
     return m2, (lambda s: tuple(s[inv_v[v]] for v in range(nv))), inv_v
 
 
+def permute_arguments(m, rnd):
+    """The arguments of every constraint whose meaning does not depend on their order are listed in another order (linear
+    constraints keep each coefficient with its variable; functional constraints keep the result in last position)."""
+    m2 = _copy(m)
+    for c in m2["props"]:
+        vs, name, p = c
+        n = len(vs)
+        if name in ("affine_eq", "affine_leq", "affine_geq"):
+            perm = list(range(n))
+            rnd.shuffle(perm)
+            c[0] = [vs[i] for i in perm]
+            c[2] = [p[i] for i in perm] + [p[-1]]
+        elif name in ("alldifferent", "exactly_eq", "exactly_true", "gcc"):
+            perm = list(range(n))
+            rnd.shuffle(perm)
+            c[0] = [vs[i] for i in perm]
+        elif name in ("and", "count_eq", "max_eq", "min_eq", "max_leq", "min_geq"):
+            perm = list(range(n - 1))
+            rnd.shuffle(perm)
+            c[0] = [vs[i] for i in perm] + [vs[-1]]
+        elif name == "relation" and n:
+            perm = list(range(n))
+            rnd.shuffle(perm)
+            c[0] = [vs[i] for i in perm]
+            c[2] = [p[k + i] for k in range(0, len(p) - n + 1, n) for i in perm]
+        elif name == "lexicographic_leq":
+            pass
+    return m2, (lambda s: tuple(s))
+
+
 def duplicate_constraint(m, rnd):
     m2 = _copy(m)
     k = rnd.randrange(len(m["props"]))
